@@ -10,4 +10,5 @@ var Registry = map[string]func(*ev.Run){
 	"C04": C04,
 	"C07": C07,
 	"C10": C10,
+	"C14": C14,
 }
